@@ -350,6 +350,25 @@ def run_case(case, model):
                         expected=expected_finals))
     if res['ending'] == 'aborted' and res['events'] and res['events'][-1] not in ('r421', 'r501'):
         hits.append(hit('c07.abort-without-reply', 'the session was aborted without a 421/501 reply', observed=res['events'][-4:]))
+    # command names are case-insensitive: the same session with every command verb in upper case must be answered the same way
+    # (reply codes and callbacks). Seeded change C07-x (a lower-case verb without an argument is not recognised) was reported by the
+    # correspondence only; this is its failing input on the implementation alone.
+    def upper_verb(l):
+        i = 0
+        while i < len(l) and (65 <= l[i] <= 90 or 97 <= l[i] <= 122):
+            i += 1
+        return l[:i].upper() + l[i:]
+    up = [l if l == b'BODY' else upper_verb(l) for l in lines]
+    if up != lines and not hits and b'BODY' not in lines:
+        clear_u, tls_u = build(up)
+        tls_streams_u = [[tls_u]] if tls_u else ([[]] if cfg['starttls'] else [])
+        res_u = sd.run_server(cfg, case['verdicts'], b'', [clear_u] if clear_u else [], tls_streams_u)
+
+        def shape(evs):
+            return [e if e[0] == 'r' else e.split(':')[0] for e in evs]
+        if shape(res_u['events']) != shape(res['events']) or res_u['ending'] != res['ending']:
+            hits.append(hit('c07.command-case-changes-the-answer', 'the same session with its command verbs in upper case is answered differently',
+                            observed={'as sent': shape(res['events'])[-10:], 'upper case': shape(res_u['events'])[-10:]}))
     now = stock_replies()
     if now != _STOCK:
         import slimta.smtp.reply as rp
